@@ -290,7 +290,7 @@ func (api *API) mapEncodeStructFields(
 		switch {
 		case sField.settings.ts.fieldKey != nil:
 			err = setUniqueKey(obj, *sField.settings.ts.fieldKey, eleOut)
-		case sField.settings.inlined && DeRefPointer(sField.fType).Kind() != reflect.Map:
+		case sField.settings.inlined && deRefPointers(sField.fType).Kind() != reflect.Map:
 			// (a map can not be inlined: its entries would be indistinguishable from the fields of the struct)
 			castedEleOut, ok := eleOut.(*orderedmap.OrderedMap)
 			if !ok {
@@ -307,7 +307,7 @@ func (api *API) mapEncodeStructFields(
 			// implementation: those keys must not be keys of the other members of the struct, whether those are written
 			// this time or not
 			ownKeys := make(map[string]struct{})
-			if memberType := DeRefPointer(sField.fType); memberType.Kind() == reflect.Struct {
+			if memberType := deRefPointers(sField.fType); memberType.Kind() == reflect.Struct {
 				if memberTypeSettings, _ := api.typeSettingsRegistry.GetByType(memberType); memberTypeSettings.ObjectType() != nil {
 					ownKeys[keyType] = struct{}{}
 				}
@@ -367,7 +367,7 @@ func (api *API) collectStructKeys(structType reflect.Type, usedKeys map[string]s
 	}
 
 	for _, sField := range structFields {
-		memberType := DeRefPointer(sField.fType)
+		memberType := deRefPointers(sField.fType)
 
 		switch {
 		case sField.isEmbedded && !sField.settings.inlined:
